@@ -394,6 +394,16 @@ func buildCharClassSearchers(
 		} else {
 			// Try to build faster DFA (uses subset construction for overlapping patterns)
 			result.compositeSeqDFA = nfa.NewCompositeSequenceDFA(re)
+			if result.compositeSeqDFA == nil {
+				// Without the DFA (bounded or optional parts) only the recursive
+				// CompositeSearcher is left. It rescans and re-splits every run for
+				// every start position: quadratic on a non-matching run and
+				// O(n^parts) when adjacent classes overlap ([a-z]+[a-z]+[0-9]).
+				// The bounded backtracker keeps the states x length guarantee.
+				result.compositeSrch = nil
+				result.finalStrategy = UseBoundedBacktracker
+				result.boundedBT = nfa.NewBoundedBacktracker(btNFA)
+			}
 		}
 	}
 
